@@ -1,5 +1,7 @@
 //! vf-store: checks of the object-store wrappers (C07, C08, C09).
 mod c07;
+mod c08;
+mod c09;
 mod common;
 
 use vf_core::Runner;
@@ -10,6 +12,16 @@ fn main() {
         "C07" => {
             let mut r = Runner::from_env("C07", "exploration");
             c07::run(&mut r);
+            r.finish();
+        }
+        "C08" => {
+            let mut r = Runner::from_env("C08", "fault_enumeration");
+            c08::run(&mut r);
+            r.finish();
+        }
+        "C09" => {
+            let mut r = Runner::from_env("C09", "exploration");
+            c09::run(&mut r);
             r.finish();
         }
         other => {
